@@ -481,9 +481,9 @@ Proof. unfold from_filename. rewrite match_rev_file_spec. destruct (is_rev_name 
     + rewrite !andb_false_r in Hr. discriminate. Qed.
 
 Lemma load_python_file_not_skip nm k c : load_python_file nm k c <> Skip.
-Proof. unfold load_python_file. destruct (ext_lost nm k); [discriminate|]. destruct k, c as [[i|]|es|t]; discriminate. Qed.
+Proof. unfold load_python_file. destruct (ext_lost nm k); [discriminate|]. destruct c as [[i|]|es|t]; discriminate. Qed.
 Lemma load_python_file_loaded nm k c id : load_python_file nm k c = Loaded id -> c = File (Some id).
-Proof. unfold load_python_file. destruct (ext_lost nm k); [discriminate|]. destruct k, c as [[i|]|es|t]; try discriminate; intros [= ->]; reflexivity. Qed.
+Proof. unfold load_python_file. destruct (ext_lost nm k); [discriminate|]. destruct c as [[i|]|es|t]; try discriminate; intros [= ->]; reflexivity. Qed.
 
 Definition is_loaded (r:fres) : bool := match r with Loaded _ => true | _ => false end.
 Definition idN (f:lentry) : N := match file_id f with Some i => i | None => 0 end.
@@ -747,20 +747,21 @@ Proof. intros Hwf Hin He. destruct le as [[d nm] c]. pose proof (wf_tree_entries
     + reflexivity.
     + exfalso. apply negb_true_iff in Hok. destruct He as [He|He]; [discriminate|congruence]. Qed.
 
-Lemma weird_false_ext nm : weird_name nm = false -> is_rev_name true nm = true -> kind_of nm <> KO ->
+Lemma weird_false_ext nm : weird_name nm = false -> is_rev_name true nm = true ->
   ext_lost nm (kind_of nm) = false.
-Proof. unfold weird_name, kind_of. intros Hw Hr Hk. apply orb_false_iff in Hw. destruct Hw as [H1 H2].
+Proof. unfold weird_name, kind_of. intros Hw Hr. apply orb_false_iff in Hw. destruct Hw as [H1 H2].
   destruct (suffixb s_py nm) eqn:Hp; [simpl in H1; exact H1|]. destruct (suffixb s_pyc nm) eqn:Hc; [simpl in H2; exact H2|].
-  congruence. Qed.
+  unfold is_rev_name in Hr. rewrite Hp, Hc in Hr. cbn [orb andb] in Hr. apply andb_true_iff in Hr. destruct Hr as [_ Ho].
+  rewrite Ho in H2. simpl in H2. exact H2. Qed.
 Lemma is_rev_name_mono sl nm : is_rev_name sl nm = true -> is_rev_name true nm = true.
 Proof. unfold is_rev_name. destruct sl; [auto|]. rewrite !andb_true_iff, !orb_true_iff. simpl. intuition. Qed.
 
 Lemma reals_not_fail T sl rec ps f :
   let locs := flat_map (resolve_loc T) ps in
-  wf_tree T = true -> (sl = true -> no_live_pyo T = true) ->
+  wf_tree T = true ->
   (forall g, In g (expected_files T sl rec locs) -> file_id g <> None) ->
   In f (map (real_of T) (listing T sl rec locs)) -> from_filename T sl f <> Fail.
-Proof. intros locs Hwf Hnp Hids Hin. pose proof (wf_tree_good T Hwf) as Hg.
+Proof. intros locs Hwf Hids Hin. pose proof (wf_tree_good T Hwf) as Hg.
   assert (Hl : forall l, In l locs -> good_loc T l) by apply resolve_locs_good.
   assert (Hfile : is_file f = true).
   { apply in_map_iff in Hin. destruct Hin as [le [<- Hle]]. destruct (listing_sound T sl rec locs le Hg Hl Hle) as [Ha He].
@@ -774,20 +775,13 @@ Proof. intros locs Hwf Hnp Hids Hin. pose proof (wf_tree_good T Hwf) as Hg.
   destruct c as [[id|]|es|t]; try discriminate; try congruence.
   pose proof (wf_tree_entries T _ _ _ Hwf Ha) as Hok. unfold entry_ok in Hok. cbn [fst snd] in Hok.
   rewrite !andb_true_iff in Hok. destruct Hok as [[[[_ Hw] _] _] _]. apply negb_true_iff in Hw.
-  assert (Hk : kind_of nm <> KO).
-  { intro Hk. unfold kind_of in Hk. destruct (suffixb s_py nm) eqn:Hp; [discriminate|]. destruct (suffixb s_pyc nm) eqn:Hc; [discriminate|].
-    unfold is_rev_name in Hn. rewrite Hp, Hc in Hn. cbn [orb] in Hn. apply andb_true_iff in Hn. destruct Hn as [Hpre Ho].
-    apply andb_true_iff in Ho. destruct Ho as [-> Ho].
-    specialize (Hnp eq_refl). unfold no_live_pyo in Hnp. rewrite forallb_forall in Hnp. specialize (Hnp _ Ha).
-    cbn [fst snd] in Hnp. unfold is_file, is_rev_name in Hnp. cbn [snd] in Hnp. rewrite Hp, Hc, Ho, Hs, Hpre in Hnp. discriminate. }
-  unfold load_python_file. rewrite (weird_false_ext nm Hw (is_rev_name_mono _ _ Hn) Hk).
-  destruct (kind_of nm); try discriminate. congruence. Qed.
+  unfold load_python_file. rewrite (weird_false_ext nm Hw (is_rev_name_mono _ _ Hn)). discriminate. Qed.
 
 Theorem no_error T sl rec ps ids :
-  wf_tree T = true -> (sl = true -> no_live_pyo T = true) ->
+  wf_tree T = true ->
   expected_from T sl rec (flat_map (resolve_loc T) ps) = Ok ids ->
   exists ob, load_from T sl rec (flat_map (resolve_loc T) ps) = Ok ob.
-Proof. intros Hwf Hnp He. unfold expected_from in He.
+Proof. intros Hwf He. unfold expected_from in He.
   destruct (ids_of (expected_files T sl rec (flat_map (resolve_loc T) ps))) as [ids'|] eqn:Ei; [|discriminate].
   apply ids_of_spec in Ei. destruct Ei as [_ Hids].
   unfold load_from. rewrite (listing_bad_false T sl rec _ Hwf (resolve_locs_good T ps)).
@@ -899,14 +893,13 @@ Proof. unfold split_locations, spec_locations. destruct s as [s|]; [|reflexivity
   rewrite split_legacy_eq. destruct (filter nonempty (split_legacy false s')); reflexivity. Qed.
 
 (* ------------------------------------------------------------------ the property on the proved class *)
-Theorem main i : wf_tree (i_tree i) = true -> (i_sl i = true -> no_live_pyo (i_tree i) = true) ->
-  C19_holds i (load_revisions i).
-Proof. intros Hwf Hnp.
+Theorem main i : wf_tree (i_tree i) = true -> C19_holds i (load_revisions i).
+Proof. intros Hwf.
   unfold C19_holds, load_revisions, expected. pose proof (split_full (i_sep i) (i_locs i)) as Hsp.
   destruct (split_locations (i_sep i) (i_locs i)) as [vl|e]; destruct (spec_locations (i_sep i) (i_locs i)) as [ps|e']; try tauto.
   rewrite Hsp.
   destruct (expected_from (i_tree i) (i_sl i) (i_rec i) (flat_map (resolve_loc (i_tree i)) ps)) as [ids|e] eqn:He.
-    + destruct (no_error _ _ _ _ _ Hwf Hnp He) as [ob Hob]. rewrite Hob.
+    + destruct (no_error _ _ _ _ _ Hwf He) as [ob Hob]. rewrite Hob.
       destruct (exactly_once _ _ _ _ _ Hwf Hob) as [ids' [He' HP]]. rewrite He in He'. inversion He'; subst ids'.
       split; auto. intros x. apply load_from_Ok in Hob. destruct Hob as (_ & _ & Hd & _). rewrite Hd, duplicate_id.
       f_equal. unfold count. apply (Permutation_count_occ N.eq_dec); auto.
@@ -914,5 +907,4 @@ Proof. intros Hwf Hnp.
       * destruct (exactly_once _ _ _ _ _ Hwf Hob) as [ids' [He' _]]. congruence.
       * rewrite Herr. unfold expected_from in He. destruct (ids_of _); [discriminate|]. congruence. Qed.
 Corollary main_inclass i : inclass_C19 i = true -> C19_holds i (load_revisions i).
-Proof. unfold inclass_C19. rewrite !andb_true_iff. intros [[Hwf _] Hs]. apply main; auto.
-  intros E. rewrite E in Hs. exact Hs. Qed.
+Proof. unfold inclass_C19. rewrite !andb_true_iff. intros [Hwf _]. apply main; auto. Qed.
